@@ -270,7 +270,9 @@ fn c12_jobs(tier: Tier) -> Vec<HybJob> {
         vec![HOp::Fill { n: 2 }],
         vec![HOp::Close],
     ];
-    let len = if tier == Tier::Quick { 3 } else { 4 };
+    // thorough: every history of up to 4 calls under every plan, and of exactly 5 calls under Eager (1 deviation)
+    // and Alternate (0 deviations)
+    let len = if tier == Tier::Quick { 3 } else { 5 };
     use BasePolicy::*;
     let plan: Vec<(BasePolicy, usize)> = match tier {
         Tier::Quick => vec![(Eager, 0), (LazyIo, 1), (Alternate, 0)],
@@ -296,6 +298,10 @@ fn c12_jobs(tier: Tier) -> Vec<HybJob> {
                         }
                     }
                     for (policy, bound) in plan.iter() {
+                        if prog.len() == 5 && (*policy == LazyIo) {
+                            continue;
+                        }
+                        let bound = &(if prog.len() == 5 && *policy != Eager { 0 } else { *bound });
                         // From the empty cache, and from a state in which k1 lives on disk only.
                         for on_disk_start in [false, true] {
                             if on_disk_start && (admission == Admission::Reject || !prog.iter().any(|o| matches!(o, HOp::Get { k: 1 } | HOp::Gof { k: 1, .. }))) {
@@ -824,7 +830,18 @@ fn c06_jobs(tier: Tier) -> Vec<HybJob> {
         vec![g, rm, g],
         vec![get, g, rm],
     ];
-    let bound = if tier == Tier::Quick { 2 } else { 3 };
+    let mut cores = cores;
+    if tier == Tier::Thorough {
+        cores.extend([
+            vec![g, get, get],
+            vec![get, get, g, g],
+            vec![g, g, rm],
+            vec![g, ins, g],
+            vec![get, g, ins],
+            vec![g, g, g, g],
+        ]);
+    }
+    let bound = if tier == Tier::Quick { 2 } else { 5 };
     for cfg in cfgs {
         for core in cores.iter() {
             // disk state: 0 = key absent, 1 = key on disk only, 2 = key on disk only and lookups throttled
@@ -957,7 +974,7 @@ pub fn props() -> Vec<HybProp> {
             assumptions: vec!["disk-lookup throttling is injected through foyer's own test_utils LoadThrottleSwitch (a third disk state beside absent / on disk)"],
             level: "model_checking",
             need_tiers: vec![0],
-            max_execs_per_job: 50_000,
+            max_execs_per_job: 5_000_000,
         },
         HybProp {
             id: "C11",
@@ -968,7 +985,7 @@ pub fn props() -> Vec<HybProp> {
             assumptions: vec!["'while still waiting on its origin' is evaluated at the granularity of one task poll"],
             level: "model_checking",
             need_tiers: vec![1],
-            max_execs_per_job: 50_000,
+            max_execs_per_job: 5_000_000,
         },
         HybProp {
             id: "C12",
